@@ -98,10 +98,12 @@ func gridArith() []group {
 		}
 	}
 	// operands that are sequences / non-numbers / documents
-	docs := []any{[]any{float64(1)}, []any{float64(1), float64(2)}, []any{}, "a", nil, map[string]any{"a": float64(1)}, []any{[]any{float64(1)}}, []any{"x"}}
+	docs := []any{[]any{float64(1)}, []any{float64(1), float64(2)}, []any{}, "a", nil, map[string]any{"a": float64(1)}, []any{[]any{float64(1)}}, []any{"x"},
+		// several array items whose elements add up to one number (lax unwrapping on either side)
+		[]any{[]any{float64(7)}, []any{}}, []any{[]any{}, []any{float64(7)}, []any{}}, []any{[]any{}, []any{}}, []any{[]any{float64(7)}, []any{float64(8)}}, []any{[]any{json.Number("7")}, []any{}}, []any{[]any{int64(7)}, []any{}, "x"}}
 	for _, d := range docs {
 		for _, mode := range []string{"", "strict "} {
-			for _, t := range []string{"$ + 1", "1 + $", "$[*] * 2", "2 * $[*]", "-$", "+$[*]", "-$[*]", "$ / 0", "1 % $", "($ + 1).abs()", "$.a + $.a", "-$.a"} {
+			for _, t := range []string{"$ + 1", "1 + $", "$[*] * 2", "2 * $[*]", "-$", "+$[*]", "-$[*]", "$ / 0", "1 % $", "($ + 1).abs()", "$.a + $.a", "-$.a", "1 + $[*]", "$[*] + 1", "$[*] - $[*]", "10 % $[*]", "$[*] / 2", "2 / $[*]"} {
 				gs = append(gs, group{mode + t, d, nil})
 			}
 		}
@@ -254,6 +256,13 @@ func gridMethod() []group {
 	ps := []int{1, 2, 3, 5, 15, 16, 17, 308, 309, 1000, 0, 1001, -1}
 	ss := []int{-1000, -309, -308, -2, -1, 0, 1, 2, 15, 308, 309, 1000, 1001, -1001}
 	dvals := []any{float64(0), float64(1), float64(100), float64(123.456), float64(99.99), float64(99.999), float64(-5.5), float64(1e20), float64(1e-7), json.Number("12345.678"), "77.7", int64(42)}
+	// datetime items printed by .string(): every fractional digit the item has (up to nine) is printed
+	for _, v := range []any{"12:34:56.1234567+01:00", "12:34:56.123456789+01:00", "00:00:00.000000001+14:00", "23:59:59.999999999-12:00", "12:34:56.12345678", "12:34:56.000000001",
+		"2024-01-01T12:34:56.123456789+01:00", "2024-01-01T12:34:56.1234567", "2024-01-01 12:34:56.999999999Z", "2024-01-01", "12:34:56.1+05:30", "12:34:56.120000000+05:30"} {
+		for _, m := range []string{"time_tz()", "time()", "timestamp()", "timestamp_tz()", "datetime()", "date()"} {
+			gs = append(gs, group{"$." + m + ".string()", v, nil}, group{"$." + m + ".string()." + m + " == $." + m, v, nil}, group{"$." + m + ".string().datetime() == $.datetime()", v, nil})
+		}
+	}
 	// scales at which math.Pow10 is not the double nearest to 10^s (it multiplies two table entries), with operands k * 10^-s
 	for _, sc := range []int{22, 23, 24, 33, 34, 37, 39, 45, 49, 57, 64, 100, 150, 200, 250, 300, 307, -22, -23, -24, -25, -26, -28, -33, -64, -100, -200, -300, -307, -308} {
 		for _, k := range []string{"1", "2", "3", "7", "1.5", "9.99"} {
@@ -331,7 +340,8 @@ func gridAny() []group {
 	trees = append(trees, jbig, []any{jbig}, map[string]any{"a": jbig}, []any{json.Number("1"), jbig, json.Number("2.5"), "x", jneg},
 		map[string]any{"a": jbig, "b": []any{jneg, float64(1)}}, []any{[]any{jbig}, map[string]any{"a": jneg}}, []any{json.Number("12345678901234567890"), json.Number("1.50")})
 	var accs []string
-	for _, a := range []string{".**", ".**{0}", ".**{1}", ".**{2}", ".**{3}", ".**{0 to 1}", ".**{1 to 2}", ".**{2 to 4}", ".**{1 to last}", ".**{0 to last}", ".**{last}", ".**{last to last}", ".**{2 to 1}", ".*", "[*]", ".*.*", "[*][*]", ".*[*]"} {
+	for _, a := range []string{".**", ".**{0}", ".**{1}", ".**{2}", ".**{3}", ".**{0 to 1}", ".**{1 to 2}", ".**{2 to 4}", ".**{1 to last}", ".**{0 to last}", ".**{last}", ".**{last to last}", ".**{2 to 1}", ".*", "[*]", ".*.*", "[*][*]", ".*[*]",
+		".**{2147483647 to last}", ".**{2147483646 to last}", ".**{2147483647}", ".**{0 to 2147483647}", ".**{0x7fffffff to last}", ".**{1 to 2147483647}"} {
 		accs = append(accs, a)
 	}
 	follows := []string{"", ".a", ".*", "[*]", "[0]", ".type()", " ? (@ == 1)", ".b"}
@@ -369,6 +379,19 @@ func gridKleene() []group {
 						gs = append(gs, group{mode + "$ ? (!(" + t + "))", d, nil}, group{mode + "$ ? ((" + t + ") is unknown)", d, nil})
 					}
 				}
+			}
+		}
+	}
+	// exists(e) where e ends in a step after a datetime method or .keyvalue(): the step decides, not the method
+	edocs := []any{map[string]any{"d": "2024-05-01", "o": map[string]any{"a": float64(5), "b": float64(1)}}, map[string]any{"d": "x", "o": map[string]any{"a": float64(1), "b": float64(5)}},
+		map[string]any{"d": []any{"2024-05-01", "2031-06-30"}, "o": map[string]any{"a": float64(5)}}, map[string]any{"d": "12:00:00", "o": map[string]any{}}}
+	for _, e := range []string{"@.d.date() ? (@ > \"2030-01-01\".date())", "@.d.date() ? (@ < \"2030-01-01\".date())", "@.d.datetime().type() ? (@ == \"x\")", "@.d.date().double()", "@.d.time() ? (@ > \"13:00:00\".time())",
+		"@.d.timestamp().a", "@.o.keyvalue() ? (@.value > 1)", "@.o.keyvalue() ? (@.key == \"a\")", "@.o.keyvalue().value ? (@ < 3)", "@.o.keyvalue().value.double() ? (@ > 9)", "@.d[*].date() ? (@ > \"2030-01-01\".date())"} {
+		for _, mode := range []string{"", "strict "} {
+			for _, d := range edocs {
+				top := strings.ReplaceAll(e, "@", "$")
+				gs = append(gs, group{mode + "exists(" + top + ")", d, nil}, group{mode + "!exists(" + top + ")", d, nil}, group{mode + "(exists(" + top + ")) is unknown", d, nil}, group{mode + "exists(" + top + ") && true", d, nil},
+					group{mode + "$ ? (exists(" + e + "))", d, nil}, group{mode + top, d, nil})
 			}
 		}
 	}
@@ -587,6 +610,7 @@ func gridDatetime() []group {
 		"2024-11-03T01:30:00", "2024-11-03T05:30:00Z", "2024-11-03T06:30:00+00", "2024-11-03T01:30:00-04:00", "2024-11-03T01:30:00-05:00", "2024-11-03",
 		"01:30:00", "02:30:00", "01:30:00-05", "12:00:00+05:30", "2015-08-02", "2015-08-02T00:00:00-04:00", "2015-08-02T00:00:00", "2023-12-31T23:59:59.999999",
 		"2024-01-01T00:00:00+14:00", "2024-10-06", "2024-10-06T02:15:00", "2024-10-05T15:30:00Z", "2024-03-31T02:30:00", "2024-03-31T01:30:00+01:00", "00:00:00", "23:59:59.9999995",
+		"2024-03-09T20:00:00Z", "2024-03-10T02:00:00+00:00", "2015-08-01T20:00:00+00:00", "2015-08-02T02:00:00Z", "2024-04-07T01:15:00", "2024-04-06T14:45:00Z",
 	}
 	methods := []string{"datetime()", "date()", "time()", "time_tz()", "timestamp()", "timestamp_tz()"}
 	var texts []string
@@ -800,6 +824,14 @@ func gridInteract() []group {
 		for _, t := range []string{"(-$.a[*]) ? (@ < -3)", "(+$.a[*]) ? (@ > 3)", "(-$[*]).abs() ? (@ > 3)", "(+$[*]).abs() ? (@ > 3)", "(-$.a[*]).type()", "(-$[*]) ? (@ > 3).abs()", "(-$.a[*]) ? (@ < -3) ? (@ < 0)",
 			"($.a[0] + 1) ? (@ > 3)", "($.a[1] * 2) ? (@ > 3)", "exists((-$.a[*]) ? (@ < -3))", "$ ? (exists((-@.a[*]) ? (@ < -3)))", "(-$.a[*]).double() ? (@ < -3)", "(-$.a[*])[0] ? (@ < -3)"} {
 			add(t, d, nil)
+		}
+	}
+	// (13) the right operand of starts with is a variable bound to something that is not a string (no unwrapping on that side)
+	for _, pv := range []any{[]any{"ab"}, []any{}, []any{"zz", "ab"}, []any{[]any{"ab"}}, "ab", "zz", float64(1), nil, map[string]any{"a": "ab"}, []any{"ab", float64(1)}} {
+		vars := map[string]any{"p": pv}
+		for _, t := range []string{"$[*] ? (@ starts with $p)", "$[*] ? (!(@ starts with $p))", "$[*] ? ((@ starts with $p) is unknown)", "$[0] starts with $p", "!($[0] starts with $p)", "$[*] starts with $p",
+			"$[*] ? (@ starts with $p || @ == 1)", "$[*] ? (@ == $p)", "$[*] ? (@ like_regex \"^ab\" && @ starts with $p)"} {
+			add(t, []any{"abc", "xyz", float64(1), "abd"}, vars)
 		}
 	}
 	// (11) the filter item is a json.Number whose text is not what its value prints as: the condition sees the text
